@@ -2,4 +2,4 @@ INIT Init
 NEXT Next
 INVARIANT Emit
 CHECK_DEADLOCK FALSE
-CONSTANTS N = 40000  Mode = "planted"
+CONSTANTS N = 60000  Mode = "planted"
